@@ -151,7 +151,7 @@ pub fn check(s: &Scenario) -> CheckResult {
     let mut follow_count = 0;
     // the crate's own Settable implementors keep the same bookkeeping (their `set` may be overridden): a CommandPID and a Terminal
     let pid_input = rc_ref_cell_reference(Scripted::<State>::new());
-    let mut pid = rrtk::streams::control::CommandPID::new(pid_input, Command::new(PositionDerivative::Position, 0.0), PositionDerivativeDependentPIDKValues::new(PIDKValues::new(1.0, 0.0, 0.0), PIDKValues::new(1.0, 0.0, 0.0), PIDKValues::new(1.0, 0.0, 0.0)));
+    let mut pid = rrtk::streams::control::CommandPID::new(pid_input.clone(), Command::new(PositionDerivative::Position, 0.0), PositionDerivativeDependentPIDKValues::new(PIDKValues::new(1.0, 0.0, 0.0), PIDKValues::new(1.0, 0.0, 0.0), PIDKValues::new(1.0, 0.0, 0.0)));
     ensure!(pid.get_last_request().is_none(), "C15/command-pid/last-request", "a new CommandPID reports the last request {:?}", pid.get_last_request());
     // two terminals, one connected to nothing and one connected to a third, mirror the settable's set/follow/stop/update ops on
     // both of their settable halves (Datum<State> and Datum<Command>); the followed getters replay the scripted getters' outputs
@@ -162,8 +162,14 @@ pub fn check(s: &Scenario) -> CheckResult {
     let terminals = [("unconnected", &t_free), ("connected", &t_linked)];
     let t_state = |v: i64, t: i64| Datum::new(Time(t), State::new_raw((v % 1000) as f32, (v % 7) as f32, (v % 13) as f32));
     let t_command = |v: i64, t: i64| Datum::new(Time(t), Command::new([PositionDerivative::Position, PositionDerivative::Velocity, PositionDerivative::Acceleration][(v.unsigned_abs() % 3) as usize], (v % 1000) as f32));
-    let mut t_last: Option<(Datum<State>, Datum<Command>)> = None;
+    // per terminal, as where one channel errs the crate may or may not have forwarded the other one (the order is not specified)
+    let mut t_last: [(Option<Datum<State>>, Option<Datum<Command>>); 2] = [(None, None); 2];
     let mut t_following: Option<usize> = None;
+    // the CommandPID follows a command getter replaying getter k while its own input replays getter 1
+    let pid_command_getters: Vec<Reference<Scripted<Command>>> = (0..2).map(|_| rc_ref_cell_reference(Scripted::<Command>::new())).collect();
+    let pid_command = |v: i64| Command::new([PositionDerivative::Position, PositionDerivative::Velocity, PositionDerivative::Acceleration][(v.unsigned_abs() % 3) as usize], (v % 1000) as f32);
+    let mut pid_last: Option<Command> = None;
+    let mut pid_following: Option<usize> = None;
     for (i, op) in s.ops.iter().enumerate() {
         match *op {
             Op::Set(v, _) => {
@@ -172,7 +178,7 @@ pub fn check(s: &Scenario) -> CheckResult {
                     let r2 = t.borrow_mut().set(t_command(v, v ^ 9));
                     ensure!(r1.is_ok() && r2.is_ok(), "C15/terminal/set-failed", "op {}: Terminal::set returned {:?} / {:?}", i, r1, r2);
                 }
-                t_last = Some((t_state(v, v ^ 5), t_command(v, v ^ 9)));
+                t_last = [(Some(t_state(v, v ^ 5)), Some(t_command(v, v ^ 9))); 2];
             }
             Op::Follow(k) => {
                 let k = k as usize % 2;
@@ -181,6 +187,8 @@ pub fn check(s: &Scenario) -> CheckResult {
                     <Terminal<E> as Settable<Datum<Command>, E>>::follow(&mut t.borrow_mut(), to_dyn!(Getter<Datum<Command>, E>, t_command_getters[k].clone()));
                 }
                 t_following = Some(k);
+                pid.follow(to_dyn!(Getter<Command, E>, pid_command_getters[k].clone()));
+                pid_following = Some(k);
             }
             Op::StopFollowing => {
                 for (_, t) in terminals {
@@ -188,25 +196,62 @@ pub fn check(s: &Scenario) -> CheckResult {
                     <Terminal<E> as Settable<Datum<Command>, E>>::stop_following(&mut t.borrow_mut());
                 }
                 t_following = None;
+                pid.stop_following();
+                pid_following = None;
             }
             Op::Update | Op::UpdateFailing => {
-                let mut want = Ok(());
-                if let Some(k) = t_following {
-                    match gout[k] {
-                        GOut::Present(v, t) => t_last = Some((t_state(v, t), t_command(v, t))),
-                        GOut::Absent => {}
-                        GOut::Err(e) => want = Err(mk_err(e)),
+                // the command channel replays getter k, the state channel getter 1-k: a present value must be forwarded and an
+                // error returned whatever the other channel does; which error wins and whether the other channel was still
+                // polled when one errs is left open
+                let (c_out, s_out) = match t_following {
+                    Some(k) => (gout[k], gout[1 - k]),
+                    None => (GOut::Absent, GOut::Absent),
+                };
+                let errs: Vec<NothingOrError<E>> = [c_out, s_out].iter().filter_map(|o| if let GOut::Err(e) = o { Some(Err(mk_err(*e))) } else { None }).collect();
+                for (ti, (name, t)) in terminals.iter().enumerate() {
+                    let r = t.borrow_mut().update();
+                    ensure!(if errs.is_empty() { r.is_ok() } else { errs.contains(&r) }, "C15/terminal/update-return", "op {}: the {} terminal's update returned {:?}; its followed command getter returns {:?} and its followed state getter {:?}", i, name, r, c_out, s_out);
+                    let got_state = <Terminal<E> as Settable<Datum<State>, E>>::get_last_request(&t.borrow());
+                    let got_command = <Terminal<E> as Settable<Datum<Command>, E>>::get_last_request(&t.borrow());
+                    if let GOut::Present(v, tm) = s_out {
+                        if errs.is_empty() || got_state == Some(t_state(v, tm)) {
+                            t_last[ti].0 = Some(t_state(v, tm));
+                        }
+                    }
+                    if let GOut::Present(v, tm) = c_out {
+                        if errs.is_empty() || got_command == Some(t_command(v, tm)) {
+                            t_last[ti].1 = Some(t_command(v, tm));
+                        }
                     }
                 }
-                for (name, t) in terminals {
-                    let r = t.borrow_mut().update();
-                    ensure!(r == want, "C15/terminal/update-return", "op {}: the {} terminal's update returned {:?}, expected {:?} (following {:?}, getter outputs {:?})", i, name, r, want, t_following, gout);
+                // the CommandPID: followed command getter k, own input getter 1
+                let f_out = pid_following.map(|k| gout[k]).unwrap_or(GOut::Absent);
+                let perrs: Vec<NothingOrError<E>> = [f_out, gout[1]].iter().filter_map(|o| if let GOut::Err(e) = o { Some(Err(mk_err(*e))) } else { None }).collect();
+                let r = pid.update();
+                ensure!(if perrs.is_empty() { r.is_ok() } else { perrs.contains(&r) }, "C15/command-pid/update-return", "op {}: CommandPID::update returned {:?}; its followed command getter returns {:?} and its input {:?}", i, r, f_out, gout[1]);
+                if let GOut::Present(v, _) = f_out {
+                    if perrs.is_empty() || pid.get_last_request() == Some(pid_command(v)) {
+                        pid_last = Some(pid_command(v));
+                    }
                 }
             }
             Op::GetterOut(k, o) => {
                 let k = k as usize % 2;
                 // the outer stamp (of the getter's datum) is dropped by following; the inner datum is what gets set
-                t_state_getters[k].borrow_mut().cur = match o {
+                pid_command_getters[k].borrow_mut().cur = match o {
+                    GOut::Present(v, t) => Ok(Some(Datum::new(Time(t), pid_command(v)))),
+                    GOut::Absent => Ok(None),
+                    GOut::Err(e) => Err(mk_err(e)),
+                };
+                if k == 1 {
+                    pid_input.borrow_mut().cur = match o {
+                        GOut::Present(v, t) => Ok(Some(Datum::new(Time(t), State::new_raw((v % 1000) as f32, (v % 7) as f32, (v % 13) as f32)))),
+                        GOut::Absent => Ok(None),
+                        GOut::Err(e) => Err(mk_err(e)),
+                    };
+                }
+                // the state channel of the terminals follows the *other* getter
+                t_state_getters[1 - k].borrow_mut().cur = match o {
                     GOut::Present(v, t) => Ok(Some(Datum::new(Time(t ^ 0x33), t_state(v, t)))),
                     GOut::Absent => Ok(None),
                     GOut::Err(e) => Err(mk_err(e)),
@@ -219,17 +264,19 @@ pub fn check(s: &Scenario) -> CheckResult {
             }
             _ => {}
         }
-        for (name, t) in terminals {
+        for (ti, (name, t)) in terminals.iter().enumerate() {
             let got_state = <Terminal<E> as Settable<Datum<State>, E>>::get_last_request(&t.borrow());
             let got = (got_state, <Terminal<E> as Settable<Datum<Command>, E>>::get_last_request(&t.borrow()));
-            ensure!(got == (t_last.map(|l| l.0), t_last.map(|l| l.1)), "C15/terminal/last-request", "op {} ({:?}): the {} terminal's last requests are {:?}; the most recent successfully set state and command are {:?} (following {:?}, getter outputs {:?})", i, op, name, got, t_last, t_following, gout);
+            ensure!(got == t_last[ti], "C15/terminal/last-request", "op {} ({:?}): the {} terminal's last requests are {:?}; the most recent successfully set state and command are {:?} (following {:?}: command channel getter k, state channel getter 1-k; getter outputs {:?})", i, op, name, got, t_last[ti], t_following, gout);
         }
         if let Op::Set(v, _) | Op::CSet(v) = *op {
             // the first sets repeat the command the controller was built with: still a successful set with that argument
             let cmd = if i < 2 { Command::new(PositionDerivative::Position, 0.0) } else { Command::new([PositionDerivative::Position, PositionDerivative::Velocity, PositionDerivative::Acceleration][(v.unsigned_abs() % 3) as usize], (v % 1000) as f32) };
             let r = pid.set(cmd);
             ensure!(r.is_ok() && pid.get_last_request() == Some(cmd), "C15/command-pid/last-request", "op {}: CommandPID::set({:?}) returned {:?}; get_last_request() = {:?}", i, cmd, r, pid.get_last_request());
+            pid_last = Some(cmd);
         }
+        ensure!(pid.get_last_request() == pid_last, "C15/command-pid/last-request", "op {} ({:?}): CommandPID::get_last_request() = {:?}; the most recent successfully set or forwarded command is {:?} (following {:?}, getter outputs {:?})", i, op, pid.get_last_request(), pid_last, pid_following, gout);
         match *op {
             Op::Set(v, ok) => {
                 succeed.set(ok);
